@@ -154,7 +154,7 @@ pub fn check_frames(main: &ColMatrix<Felt>, cj: &dyn Fn() -> serde_json::Value) 
     Ok(calls)
 }
 
-fn final_memory(case: &Case, program: &vm_core::Program, ctxs: &[u64]) -> Result<BTreeMap<(u32, u64), [u64; 4]>, String> {
+pub fn final_memory(case: &Case, program: &vm_core::Program, ctxs: &[u64]) -> Result<BTreeMap<(u32, u64), [u64; 4]>, String> {
     let mut host = case.host();
     let r = vm::catch(|| {
         let mut p = Process::new(program.kernel().clone(), case.stack_inputs(), &mut host, ExecutionOptions::default());
